@@ -185,6 +185,9 @@ type Exec struct {
 	extraUses []string
 	factSet map[string]int
 	qstack  []*qframe
+	escaped []escapedLit
+	parentClosures map[int]*Contract
+	invLocs map[string][]string
 	refAx   map[string]bool
 	known   map[string]bool
 	freshOnly map[string]bool
@@ -193,6 +196,13 @@ type Exec struct {
 	writeSeq int
 	freshRefs map[string]bool
 	curPos  token.Pos
+}
+
+type escapedLit struct {
+	lit *ast.FuncLit
+	ct  *Contract
+	pkg *packages.Package
+	pos token.Pos
 }
 
 type qframe struct {
@@ -362,6 +372,9 @@ const (
 func kindOf(t types.Type) kind {
 	if t == nil {
 		return kOther
+	}
+	if isTimeType(t) {
+		return kInt // A-TIME: time.Time is a mathematical integer (nanoseconds since the epoch)
 	}
 	switch u := t.Underlying().(type) {
 	case *types.Basic:
@@ -1166,4 +1179,12 @@ func shortPkg(path string) string {
 	shortPkgs[path] = s
 	shortPkgsRev[s] = path
 	return s
+}
+
+func isTimeType(t types.Type) bool {
+	if a, ok := t.(*types.Alias); ok {
+		t = types.Unalias(a)
+	}
+	n, ok := t.(*types.Named)
+	return ok && n.Obj().Pkg() != nil && n.Obj().Pkg().Path() == "time" && n.Obj().Name() == "Time"
 }
